@@ -22,7 +22,13 @@ def main():
     cmd = ["git", "-C", "/repo", "apply"] + (["-R"] if rev else []) + [os.path.abspath(patch)]
     r = subprocess.run(cmd, capture_output=True, text=True)
     if r.returncode:
-        print("patch does not apply:", r.stderr); return 2
+        cmd.insert(4, "--3way")
+        r = subprocess.run(cmd, capture_output=True, text=True)
+        if r.returncode:
+            subprocess.run(["git", "-C", "/repo", "checkout", "--", "."])
+            print("patch does not apply:", r.stderr); return 2
+        subprocess.run(["git", "-C", "/repo", "reset", "-q"])
+        print("(applied with --3way)")
     rc = {}
     try:
         for i in ids:
@@ -35,6 +41,7 @@ def main():
             if p.stderr.strip():
                 print("   stderr:", p.stderr.strip()[-500:])
     finally:
+        subprocess.run(["git", "-C", "/repo", "reset", "-q"])
         subprocess.run(["git", "-C", "/repo", "checkout", "--", "."])
         subprocess.run(["git", "-C", "/repo", "clean", "-fdq"])
     print("RESULT", patch, rc)
